@@ -167,6 +167,10 @@ def hypsB (key : List Bytes) (db : DB) (t : Tape) (absent : List Bytes) : Bool :
     let tapeBytes := t.filterMap fun d => match d with | .bytes b => some b | _ => none
     let labels := db.map fun p => piBytes cfg lv K3 p.1
     decide (2 ≤ cfg.log2s) &&
+    -- `SSE1.setup_never_raises`: the array size is a power of two, keys of `param_k` bytes, keywords of at most `param_l`
+    -- bytes, no empty list, fewer than `param_s` postings
+    decide (cfg.s.toNat = 2 ^ cfg.log2s) && key.all (fun k => k.length == cfg.k.toNat) &&
+    db.all (fun p => decide (p.1.length ≤ cfg.l.toNat) && !p.2.isEmpty) && decide (db.total < cfg.s.toNat) &&
     -- C05 (`SSE1.shape`): no random filler label of the table repeats a label
     nodupBy (drawsLen cfg.l.toNat t) && decide (db.length ≤ cfg.dictSize.toNat) &&
     labels.all (fun l => match l with | .ok g => !(drawsLen cfg.l.toNat t).contains g | .error _ => false) &&
